@@ -35,6 +35,37 @@ CLAIMED = {
             "component their definition needs (start, final, symbol and epsilon edges, all determinism conjuncts, "
             "length bound), epsilon edges do not extend words, yields are duplicate-guarded. Exactness of the "
             "enumeration is not decided."),
+    "C06": ("typestate simulation (merged-parallel-edges) over the inlined event order + component coverage + "
+            "exception-escape analysis",
+            "Static necessary conditions: state elimination and the closed form only start from merged parallel "
+            "edges (established before the loop and re-established by every step), outgoing and incoming edges of an "
+            "eliminated state cover symbol and epsilon edges, one private copy per final state, no undocumented "
+            "exception escapes to_regex. The denotation of the produced text is not decided."),
+    "C08": ("interprocedural guard-dominance (exception discipline) + dependence analysis",
+            "Static necessary conditions: the word-keyed dictionary subscript is dominated by the all-terminals guard "
+            "on every call path and the full-span cell is defined on the other branch (unknown symbols give False, "
+            "not KeyError); CYK only for non-empty words; normalisation of the word; verdict = start symbol in the "
+            "full-span cell. Exactness of CYK is not decided."),
+    "C09": ("phase-order and dependence analysis over tagged fixpoint results + cache-coherence pairing + fresh-name "
+            "rules",
+            "Static necessary conditions: generating-before-reachable ordering with reachability computed on the "
+            "filtered grammar, nullable expansion dropping empty bodies, unit-pair closure, pipeline order of "
+            "to_normal_form, cache stores what is returned, fresh CNF names. Language preservation is not decided."),
+    "C10": ("fresh-name / capture-avoidance analysis of substitute + operand-flow and delegation rules",
+            "Static necessary conditions: every head renamed, un-renamed body symbols only when not a variable of the "
+            "operand, shared counter, total name building, templates eliminated through substitute with both operands "
+            "in body order, reverse reverses bodies, operators delegate. The denotation of the templates is not "
+            "decided."),
+    "C11": ("typestate (DFA) on indexed successor collections + sibling-dispatch agreement + dependence analysis",
+            "Static necessary conditions: successors that are indexed always come from a DeterministicFiniteAutomaton, "
+            "dispatch agreement of the three intersection methods, Start -> epsilon depends on both operands, start "
+            "rules, both normal-form shapes, PDA product finality / epsilon moves / worklist, fresh converter, names. "
+            "Exactness of the constructions is not decided."),
+    "C13": ("fresh-name rules + ownership of wrapper edges + role-flow analysis of wrapper edges + phase-order rule",
+            "Static necessary conditions: six reserved names from the freshness loop against the right collection, "
+            "wrapper edges on copies, pop edges for every (final) state over the alphabet including the new bottom "
+            "marker, start edge pushes [start symbol, marker], set_valid strictly before is_valid_and_get (not in a "
+            "common loop), to_pda's two move kinds. Language equality is not decided."),
     "C19": ("effects-and-ownership analysis (mod/alias dataflow over a type-resolved call graph) with cache-discipline "
             "rules",
             "Static analysis over all paths of every public non-mutator method (per concrete receiver class, callees "
